@@ -7,4 +7,6 @@ require (
 	google.golang.org/protobuf v1.34.2
 )
 
+require github.com/alecthomas/participle/v2 v2.1.1 // indirect
+
 replace github.com/biscuit-auth/biscuit-go/v2 => /repo
